@@ -8,6 +8,7 @@ the Gallina model (coq/Model/Meta*.v) from the same bytes.  Three-way comparison
 from __future__ import annotations
 
 import importlib.util
+import io
 import os
 import shutil
 import struct
@@ -974,8 +975,26 @@ class VhdxSuite(Suite):
                         "log_guid": bytes(h.log_guid), "log_version": int(h.log_version), "version": int(h.version),
                         "log_length": int(h.log_length), "log_offset": int(h.log_offset)}
 
+            def snapshot(v):
+                """what the object exposes about ITS file: the metadata items by GUID, the region entries, the sizes"""
+                items = {}
+                for g, val in sorted(v.metadata.lookup.items(), key=lambda kv: kv[0].int):
+                    if hasattr(val, "dumps"):
+                        items[g.int] = bytes(val.dumps())
+                    else:
+                        items[g.int] = [getattr(val, "type", None) and val.type.int, sorted(dict(val.entries).items())]
+                return {"items": items, "regions": sorted((k.int, int(e.file_offset)) for t in v.region_tables
+                                                          for k, e in t.lookup.items()),
+                        "size": int(v.size), "block_size": int(v.block_size), "sector_size": int(v.sector_size), "id": v.id.int}
+
             def op():
                 v = vhdx.VHDX(fh)
+                # history: another, unrelated image is opened in the same process before the views are taken; what this
+                # object exposes must still be what its own file stores
+                before = snapshot(v)
+                other = vhdx.VHDX(io.BytesIO(x_parent_bytes()))
+                after = snapshot(v)
+                history = [k for k in before if before[k] != after[k]] + ([] if other.id.int != v.id.int else ["same-id"])
                 loc = None
                 if v.parent_locator is not None:
                     loc = {"type": v.parent_locator.type.int, "entries": dict(v.parent_locator.entries)}
@@ -987,7 +1006,8 @@ class VhdxSuite(Suite):
                         "mentries": [[UUID(bytes_le=bytes(e.item_id)).int, int(e.offset), int(e.length), int(e.is_user),
                                       int(e.is_virtual_disk), int(e.is_required)] for e in v.metadata.entries],
                         "size": int(v.size), "block_size": int(v.block_size), "has_parent": int(v.has_parent),
-                        "sector_size": int(v.sector_size), "id": v.id.int, "locator": loc, "bat_offset": int(v.bat.offset)}
+                        "sector_size": int(v.sector_size), "id": v.id.int, "locator": loc, "bat_offset": int(v.bat.offset),
+                        "history": history}
             return {"open": guard(op)}
         finally:
             shutil.rmtree(d, ignore_errors=True)
@@ -1007,6 +1027,11 @@ class VhdxSuite(Suite):
         if f:
             return f
         fs = []
+        if impl_res["open"][0] == "ok":
+            hist = impl_res["open"][1].pop("history", None)
+            if hist and hist != ["same-id"]:
+                fs.append(Finding("impl_vs_spec", f"vhdx: the exposed {hist} of an open image changed when another, unrelated "
+                                  "VHDX was opened in the same process", "vhdx:history"))
         _, coq_val, tie = coq_val
         if tie != "true":
             fs.append(Finding("model_vs_spec", "vhdx: the harness serialiser and the Coq writer (locator_render) produce "
